@@ -231,6 +231,7 @@ func main() {
 	per := flag.Int("per", 10, "frames per case")
 	wfile := flag.String("wiring", "", "JSON file with the translated wirings")
 	replay := flag.String("replay", "", "replay cases from a JSON file")
+	burst := flag.Int("burst", 0, "burst stage: number of reply frames processed while the consumer of the results is stalled")
 	dump := flag.String("dump", "", "dump the compiled program of a filter expression")
 	rawf := flag.Bool("raw", false, "with -dump: raw IPv4 link type")
 	flag.Parse()
@@ -253,6 +254,10 @@ func main() {
 	}
 	w := hlib.NewOut(*out)
 	defer w.Close()
+	if *burst > 0 {
+		burstStage(w, ws, *burst)
+		return
+	}
 	if *replay != "" {
 		raw, err := os.ReadFile(*replay)
 		if err != nil {
